@@ -21,9 +21,11 @@ Proof. exact contract_sound. Qed.
 Theorem C19_clause_sound : forall c en t, clause_b c en t = true <-> clause_P c en t.
 Proof. exact clause_sound. Qed.
 
-(* the unbounded theorem: an entry point of the canonical shape
-     <quiet>* ; e, err := Entry ; if err != nil { <exactly one rejection> ; return } ;
-     defer e.Exit() ; handler [; if herr != nil { TraceError(e, herr) [; return] }] ; <tail>
+(* the unbounded theorem: an entry point of the canonical shape (after dropping the
+   statements without modelled effect, `simp`)
+     e, err := Entry ; if err != nil { <exactly one rejection> ; return } ;
+     defer e.Exit() ; <reads through e, option switches>* ;
+     handler [; if herr != nil { TraceError(e, herr) [; return] }] ; <tail>
    satisfies the contract in EVERY environment (any flag valuation, any handler outcome),
    by induction on the IR term *)
 Theorem C19_wf_implies_contract : forall a, wf_adapter a = true ->
@@ -48,8 +50,17 @@ Definition ex_grpc : adapter := mkAdapter "grpc/client.go" "NewUnaryClientInterc
   (Seq Other (Seq (Entry 0 1 false) (Seq (IfBlocked 1 (Seq (IfFallback (Seq (Fallback false) Return) Other) (Seq DefaultReject Return)) Other)
     (Seq (DeferExit 0) (Seq (CallHandler (ErrVar 2)) (Seq (IfErr 2 (TraceError 0 2) Other) Return)))))).
 
+(* the repaired outlier branch of the kratos client middleware (reads entry.Context() when
+   metadata is present; a quiet statement between the handler call and the error check) *)
+Definition ex_kratos_outlier : adapter := mkAdapter "kratos/client.go" "SentinelClientMiddleware#2" 65 true
+  (Seq Other (Seq (Entry 0 1 false) (Seq (IfBlocked 1 (Seq (Fallback true) Return) Other) (Seq (DeferExit 0)
+    (Seq Other (Seq (IfOpt 0 (Seq (Deref 0) (Seq Other (Seq (Deref 0) Other))) Other)
+      (Seq (CallHandler (ErrVar 2)) (Seq Other (Seq (IfErr 2 (TraceError 0 2) Other) Return))))))))).
+
 Example C19_wf_nonvacuous :
-  wf_adapter ex_gin = true /\ wf_adapter ex_grpc = true /\
+  wf_adapter ex_gin = true /\ wf_adapter ex_grpc = true /\ wf_adapter ex_kratos_outlier = true /\
+  exec (a_body ex_kratos_outlier) (mkEnv true HOk false [true]) = [EntryCall; FallbackCall] /\
+  exec (a_body ex_kratos_outlier) (mkEnv false HErr false [true]) = [EntryCall; HandlerCall; HandlerErr; Traced; ExitCall] /\
   exec (a_body ex_grpc) (mkEnv false HErr false []) = [EntryCall; HandlerCall; HandlerErr; Traced; ExitCall] /\
   exec (a_body ex_grpc) (mkEnv false HPanic false []) = [EntryCall; HandlerCall; ExitCall; PanicOut] /\
   exec (a_body ex_gin) (mkEnv true HOk true []) = [EntryCall; FallbackCall] /\
